@@ -451,7 +451,7 @@ def check_conditionals(ctx, fi):
         m2 = re.fullmatch(r'(\w+)/self\.total', t)
         if empty is not None and m2:
             ctx.ob('conditional-form', fi, st, True, 'empty separator `%s`: Z.project(()) is the total, so `%s` is Z / Z.project(S)' % (empty, U(v)))
-        elif empty is not None and re.fullmatch(r'\w+', t):
+        elif empty is not None and re.fullmatch(r'\w+(\.copy\(\))?', t):
             ctx.ob('conditional-form', fi, st, False, 'empty separator `%s`: the conditional is stored as the bare marginal `%s` - a table of COUNTS summing to '
                    'self.total, not of probabilities; every answer chained through this edge is `total` times too large' % (empty, U(v)))
         else:
